@@ -244,6 +244,35 @@ def check_dispatch(ctx):
                 required="Born rule: a pure scalar z counts as |z|^2, a mixed scalar as itself")
 
 
+    # which scalars are mixed: decided by abstract construction of the scalar classes (the flag the Born rule reads)
+    from ..generic import instances
+    from ..objsim import explore, RaisesError, Inst, Unsupported as SimUnsupported
+    GATES_ = "discopy.quantum.gates"
+    for cname, want in (("MixedScalar", True), ("Sqrt", False), ("Scalar", None)):
+        c = m.cls("%s.%s" % (GATES_, cname))
+        ctx.analysed(c.q + ".__init__")
+        got, cases = set(), 0
+        try:
+            for label, build in instances(m, c):
+                for oracle, res, sim in explore(m, lambda sim_, build=build: build(sim_)):
+                    if isinstance(res, RaisesError) or not isinstance(res, Inst):
+                        continue
+                    cases += 1
+                    v = res.attrs.get("_mixed")
+                    if want is None:
+                        exp = True if "is_mixed=True" in label else False
+                        if v is not exp:
+                            got.add("%s(%s) has is_mixed=%r" % (cname, label, v))
+                    elif v is not want:
+                        got.add("%s(%s) has is_mixed=%r" % (cname, label, v))
+        except SimUnsupported as e:
+            raise AnalysisError("%s.__init__ outside the recognised idioms: %s" % (c.q, e))
+        ctx.need(cases > 0, "no instance of %s could be constructed" % c.q)
+        ctx.ob("R12.5", c.q + ":mixedness", not got, found=sorted(got)[:2] or "is_mixed is %s in %d constructions" % ("the given flag (False by default)" if want is None else want, cases),
+               required={True: "a MixedScalar is a mixed scalar (it counts as itself)", False: "a square root is a pure scalar (it counts as its squared magnitude)", None: "Scalar(z, is_mixed=b) carries the flag b; pure when the flag is not given"}[want],
+               mod=GATES_, node=c.node, sig="scalar-mixedness:" + cname)
+
+
 # ---------------------------------------------------------------------------------------------- R12.4 kinds
 def kind_of_param(fn, name):
     kinds = set()
@@ -322,6 +351,11 @@ def check_circuit_side(ctx):
     ok = ("utensor, counts = (self.init_and_discard().eval(), dict())" in src or "utensor = self.init_and_discard().eval()" in src) and "counts[bits] = utensor.array[bits].real" in src and "index2bitstring(i, len(utensor.cod))" in src
     ctx.ob("R12.6", CIRC + ".Circuit.get_counts", ok, found=[l for l in src.split("\n") if "utensor" in l][:4], required="counts are the real parts of the evaluation of init_and_discard(), keyed by bitstring",
            mod=CIRC, node=fn, sig="get-counts")
+    glp = next((s for s in ast.walk(fn) if isinstance(s, ast.For) and "index2bitstring" in ast.unparse(s)), None)
+    ctx.need(glp is not None and isinstance(glp.target, ast.Name), "Circuit.get_counts: no loop over the outcomes")
+    shape.match(ctx, "R12.6", CIRC + ".Circuit.get_counts:outcomes", glp.iter, "range(2 ** len(utensor.cod))", {}, mod=CIRC, node=glp, sig="get-counts-range", required="every outcome once: the indices below 2 ** (number of bits)")
+    shape.match_stmts(ctx, "R12.6", CIRC + ".Circuit.get_counts:entry", glp.body, ["bits = index2bitstring(i, len(utensor.cod))", "if utensor.array[bits]:\n    counts[bits] = utensor.array[bits].real"], {glp.target.id: "i"},
+                      mod=CIRC, node=glp, sig="get-counts-entry", exact=True, required="the probability of a bitstring is the entry of the evaluation at that bitstring (zero entries left out)")
     fn = m.func(CIRC + ".Circuit.measure")
     mb = next((s for s in fn.body if isinstance(s, ast.If) and ast.unparse(s.test) == "mixed or self.is_mixed"), None)
     shape.match(ctx, "R12.6", CIRC + ".Circuit.measure:mixed", ret_expr(mb.body) if mb else None, "self.init_and_discard().eval(mixed=True).array.real", {}, mod=CIRC, node=fn, sig="measure-mixed")
@@ -445,6 +479,18 @@ def check_circuit_side(ctx):
                 ctx.ob("R12.6", "%s:%s" % (q, ast.unparse(c.func)), fwd, found=ast.unparse(c)[:100], required="an evaluation that forwards the caller's options forwards mixed=mixed as well (batches, sums, the backend shortcut)", mod=CIRC,
                        node=c, sig="mode:" + ast.unparse(c.func))
     ctx.need(n >= 4, "fewer than 4 forwarded evaluations in Circuit.eval / Sum.eval (%d)" % n)
+    # a sum is evaluated in one mode: mixed as soon as one term is, so that the results can be added
+    se = m.func(CIRC + ".Sum.eval")
+    md = next((s.value for s in se.body if isinstance(s, ast.Assign) and ast.unparse(s.targets[0]) == "mixed"), None)
+    shape.match(ctx, "R12.6", CIRC + ".Sum.eval:mode", md, ["mixed or any((t.is_mixed for t in self.terms))", "mixed or self.is_mixed"], {}, mod=CIRC, node=se, sig="sum-mode",
+                required="the terms of a sum are evaluated in the same mode: mixed if asked for or if any term is mixed")
+    sm = m.func(CIRC + ".Sum.is_mixed")
+    shape.match(ctx, "R12.6", CIRC + ".Sum.is_mixed", ret_expr(sm.body), "any((circuit.is_mixed for circuit in self.terms))", {}, mod=CIRC, node=sm, sig="sum-is-mixed", required="a sum is mixed when one of its terms is")
+    ce = m.func(CIRC + ".Circuit.eval")
+    fa = next((s.value for s in ast.walk(ce) if isinstance(s, ast.Assign) and ast.unparse(s.targets[0]) == "functor"), None)
+    shape.match(ctx, "R12.6", CIRC + ".Circuit.eval:mode", fa, ["cqmap.Functor() if mixed or self.is_mixed else tensor.Functor(lambda x: x[0].dim, lambda f: f.array)",
+                                                                 "cqmap.Functor() if mixed or self.is_mixed else tensor.Functor(lambda x: x[-1].dim, lambda f: f.array)"], {}, mod=CIRC, node=ce, sig="circuit-mode",
+                required="the classical-quantum functor when asked for or when the circuit is mixed, the tensor functor (dimension per wire, array per box) otherwise")
     # partner daggers used by the dispatch (Encode / MixedState evaluate as the dagger of their partner): exact rebuilds (shared with C02)
     from .c02 import check_daggers
     check_daggers(ctx, modules={CIRC}, rule="R12.3", kinds=("types", "involution", "raises", "not-a-box", "involution-raises"))
